@@ -13,7 +13,7 @@
    next_ascii_symbol fast path) is not modelled: a token is the list of its
    symbols.  Unescaped octets >= 128 (UTF-8 decoding) are an error class of
    their own; the writer never emits them. *)
-From Coq Require Import NArith List Bool.
+From Coq Require Import NArith ZArith List Bool.
 From DV Require Import Base.Outcome Base.Bytes C06.Gen.
 From DV Require C17.Model.
 Import ListNotations.
